@@ -39,7 +39,8 @@ RULE = ("every case of the TLA+ enumeration -- clip evaluations: 0..2 annotation
         "recording); single matches; annotation projects: every ordered selection of 3 clips as tasks x every sequence of <= 3 annotated clips (any order, a clip annotated twice) x later-enriched copies of a clip on the task / annotation side; clips: 5 x 5 start/end "
         "values x number encodings (numbers, numeric strings, mixed) x 2 units; scores: 10 values around 0 and 1 (+ absent) x "
         "6 bounded fields (+ Evaluation.score, observed only) x number/string -- each built through 4 paths; "
-        "non-trivial = every case (each is a distinct arrangement); the evidence counts valid and invalid ones")
+        "the dict path also fed with MappingProxyType / UserDict / ChainMap / OrderedDict; 28 representative cases re-executed in a "
+        "child interpreter started with -O; non-trivial = every case (each is a distinct arrangement); the evidence counts valid and invalid ones")
 TRUSTED_BASE = ["checks/c04.py (builds objects / dicts / JSON / AOEF documents from the case, calls constructors, "
                 "model_validate, model_validate_json, io.load; reads stored values back by uuid and as exact limbs)"]
 ASSUMPTIONS = ["'every annotated / predicted sound event exactly once' = one mention per distinct event, also when a list holds it twice",
@@ -104,6 +105,23 @@ def _pred_uuid(k, share=None):
 
 def _pred(k, wrap=None, share=None):
     return data.SoundEventPrediction(uuid=_pred_uuid(k, share), sound_event=_se(K + _wrapped(wrap, k)), score=0.5)
+
+
+def _as_mapping(d, guise):
+    """The same key/value data as another Mapping type (model_validate accepts any Mapping, not only dict)."""
+    import collections
+    import types
+    if guise == "dict":
+        return d
+    if guise == "proxy":
+        return types.MappingProxyType(d)
+    if guise == "userdict":
+        return collections.UserDict(d)
+    if guise == "chainmap":
+        return collections.ChainMap(d)
+    if guise == "ordered":
+        return collections.OrderedDict(d)
+    raise ValueError(guise)
 
 
 def _attempt(fn):
@@ -260,8 +278,14 @@ def _ce(case):
             raise LookupError("clip evaluation not in the loaded evaluation")
         return got[0]
 
+    mp = case.get("mp", "dict")
+
+    def in_guise(d):       # the top-level mapping and every nested match mapping in the guise of the case
+        d = dict(d, matches=[_as_mapping(m, mp) for m in d["matches"]])
+        return _as_mapping(d, mp)
+
     fns = {"ctor": ctor,
-           "dict": lambda: data.ClipEvaluation.model_validate(as_dict("python")),
+           "dict": lambda: data.ClipEvaluation.model_validate(in_guise(as_dict("python"))),
            "json": lambda: data.ClipEvaluation.model_validate_json(json.dumps(as_dict("json"))),
            "aoef": aoef}
     out = []
@@ -319,7 +343,7 @@ def _match(case):
         return got[0]
 
     fns = {"ctor": lambda: data.Match(source=_pred(1) if s else None, target=_ann(1) if t else None, affinity=0.5),
-           "dict": lambda: data.Match.model_validate(as_dict("python")),
+           "dict": lambda: data.Match.model_validate(_as_mapping(as_dict("python"), case.get("mp", "dict"))),
            "json": lambda: data.Match.model_validate_json(json.dumps(as_dict("json"))),
            "aoef": aoef}
     out = []
@@ -420,7 +444,8 @@ def _clip_case(case):
         return got[0]
 
     fns = {"ctor": lambda: data.Clip(recording=REC, start_time=a, end_time=b),
-           "dict": lambda: data.Clip.model_validate({"recording": REC.model_dump(), "start_time": a, "end_time": b}),
+           "dict": lambda: data.Clip.model_validate(_as_mapping({"recording": REC.model_dump(), "start_time": a, "end_time": b},
+                                                                case.get("mp", "dict"))),
            "json": lambda: data.Clip.model_validate_json(json.dumps(
                {"recording": REC.model_dump(mode="json"), "start_time": a, "end_time": b})),
            "aoef": aoef}
@@ -617,6 +642,58 @@ def random_cases(rng, tier):
                "al": al, "pl": pl, "rc": rng.random() < 0.5}
 
 
+# ----------------------------------------------------------------- cases also executed under `python -O`
+_CE0 = {"kind": "ce", "ase": [1, 2, 3], "pse": [1, 2, 3], "pu": [0, 0, 0], "rc": False, "mp": "dict", "opt": 1}
+
+
+def _opt_ce(na, np_, ms, pairing):
+    return dict(_CE0, na=na, np=np_, ms=ms, pairing=pairing, al=list(range(1, na + 1)), pl=list(range(1, np_ + 1)))
+
+
+OPT_CASES = [     # one valid and one invalid case per condition of the statement
+    _opt_ce(1, 1, [[1, 1]], "same"), _opt_ce(1, 1, [[1, 1]], "copy"),                      # same clip
+    _opt_ce(1, 1, [[1, 1]], "diff_times"), _opt_ce(1, 1, [[1, 1]], "diff_rec"), _opt_ce(0, 0, [], "twin"),
+    _opt_ce(2, 1, [[1, 1], [0, 2]], "same"), _opt_ce(2, 1, [[1, 1]], "same"),              # every event exactly once
+    _opt_ce(1, 1, [[1, 1], [1, 0]], "same"), _opt_ce(1, 0, [[0, 3]], "same"), _opt_ce(0, 0, [[0, 0]], "same"),
+    {"kind": "match", "s": 1, "t": 0, "mp": "dict", "opt": 1}, {"kind": "match", "s": 0, "t": 0, "mp": "dict", "opt": 1},
+    {"kind": "project", "tseq": [1, 2], "aseq": [2, 1], "enr": [0, 0, 0], "opt": 1},
+    {"kind": "project", "tseq": [1], "aseq": [2], "enr": [0, 0, 0], "opt": 1},
+    {"kind": "clip", "st": 5, "en": 10, "u": 1, "enc": "str", "mp": "dict", "opt": 1},
+    {"kind": "clip", "st": 10, "en": 9, "u": 1, "enc": "num", "mp": "dict", "opt": 1},
+] + [{"kind": "score", "field": f, "v": v, "enc": "num", "opt": 1}
+     for f in FIELDS[:6] for v in ("half", "1+eps")]
+
+
+def _execute_all(cases):
+    return [execute(c) for c in cases]
+
+
+def extra_observations(work, tier, seed):
+    """The same clauses with the library run by an optimising interpreter (python -O: assert statements are compiled
+    away, __debug__ is False).  The cases are executed in a child interpreter and shipped as ordinary observations."""
+    import subprocess
+    import sys
+    from pathlib import Path
+    from vt.engine import Machinery
+    root = Path(__file__).resolve().parent.parent
+    f = Path(work) / "optimised_cases.json"
+    f.write_text(json.dumps(OPT_CASES))
+    env = dict(os.environ)
+    env["PYTHONPATH"] = os.pathsep.join(x for x in [os.environ.get("VERIF_SRC", ""), str(root), os.environ.get("PYTHONPATH", "")] if x)
+    env.pop("PYTHONOPTIMIZE", None)
+    p = subprocess.run([sys.executable, "-O", "-c",
+                        "import json,sys; sys.exit(7) if __debug__ else None; from checks import c04; "
+                        "print(json.dumps(c04._execute_all(json.load(open(sys.argv[1])))))", str(f)],
+                       capture_output=True, text=True, env=env, cwd=str(root), timeout=600)
+    if p.returncode != 0:
+        raise Machinery("child interpreter (python -O) for the optimised C04 cases failed: " + p.stderr[-400:])
+    outs = json.loads(p.stdout.strip().splitlines()[-1])
+    if len(outs) != len(OPT_CASES):
+        raise Machinery("child interpreter returned a wrong number of results")
+    for c, o in zip(OPT_CASES, outs):
+        yield {"src": "optimised", "in": c, "out": o}
+
+
 def finding_key(obs, clause):
     c = obs["in"]
     detail = {"clip": lambda: c["enc"], "score": lambda: c["field"], "ce": lambda: c["pairing"]}.get(c["kind"], lambda: "")()
@@ -646,10 +723,11 @@ MANIFEST = {
              "span (not the same clip), and projects whose tasks and clip annotations are listed in every order with "
              "clips annotated twice -- and path (the as-found before-mode clip "
              "validator, a validator keyed on the wrapped sound event, a merged uuid pool, a multiset (Counter) comparison, deep clip equality, a same-span "
-             "fall-through and a single-pass (generator) task lookup are kept as controls with TLC's counterexamples); "
+             "fall-through, a single-pass (generator) task lookup, a dict-only null-match test and an assert under -O are kept as controls with TLC's counterexamples); "
              "every case is then built through the constructor, model_validate, model_validate_json (numbers also as numeric "
              "strings) and a hand-written AOEF document loaded with io.load, and TLC validates ConstructIffValid, PathsAgree "
-             "and StoredWithinBounds on what was built and stored. Bounded-exhaustive plus random larger clip evaluations."),
+             "and StoredWithinBounds on what was built and stored; the dict path is also fed with other Mapping types and a "
+             "representative subset is re-executed under python -O. Bounded-exhaustive plus random larger clip evaluations."),
     "note": ("trusted: TLC, binder checks/c04.py (builds inputs for four paths, reads stored values back); AOEF documents are "
              "self-contained; Evaluation.score is observed, not judged (no bound in the library, outside the anchors); held on "
              "the tree only with fix commit be663da (Clip after-validator) -- without it the check reports F4"),
